@@ -56,7 +56,9 @@ def leaf_sets(ctx):
             'Var("p", 1, 0, 1)', 'Var("q", 2, 2, 0)', f'Var("p", {i1}, 0, 0)', 'MdVar("p", <<1, 2>>, 1, 0)',
             f'MdVar("q", <<{i1}, {i1 + 1}>>, 0, 1)', 'TdArray("s", <<1>>, 1)', f'TdArray("s", <<{b1}>>, 0)',
             'Proj(<<0, 1>>, <<1, 0>>, 3, 4, TRUE)', 'Proj(<<0, 2>>, <<0, 1>>, 3, 2, FALSE)', 'Proj(<<0, 1>>, <<0, 1>>, 2, 2, FALSE)',
-            'ProjLong(1200, 0)', 'ProjLong(1200, 600)']
+            'ProjLong(1200, 0)', 'ProjLong(1200, 600)',
+            # the same leaves on permuted domain lists (the order of the domains is the order of the values)
+            'TdArray("s", <<1, 2>>, 0)', 'TdArray("s", <<2, 1>>, 0)', 'MdVar("p", <<2, 1>>, 0, 0)']
     core2q = ['Scalar(1)', 'Var("p", 1, 0, 0)', 'Proj(<<0, 1>>, <<1, 0>>, 3, 4, FALSE)']
     core2t = core2q + ['TdArray("s", <<1>>, 1)']
     st = lambda xs: R("{" + ", ".join(xs) + "}")
